@@ -52,6 +52,48 @@ def run(ctx):
     names = [n for n in ops if n not in ("hmax",)]
     for i, rng in ctx.cases("pairs", ctx.n(700, 20000)):
         one(ctx, rng, xr, ops, names)
+    for i, rng in ctx.cases("partition_rotations", ctx.n(192, 4000)):
+        partition_rotations(ctx, rng, xr, ops)
+
+
+def partition_rotations(ctx, rng, xr, ops):
+    """Noisy, many-peaked spectra (many basins, merging in hp01) partitioned from several rotations of the stored
+    direction sequence - always including the seam between the first two stored labels - and dimension orders."""
+    rec = ctx.rec
+    nf, nd = int(rng.choice([8, 12, 20])), int(rng.choice([8, 12, 24]))
+    f = 0.04 * 1.1 ** np.arange(nf) if rng.random() < 0.5 else np.linspace(0.04, 0.4, nf)
+    th = np.arange(nd) * (360.0 / nd) + float(rng.choice([0.0, 180.0 / nd]))
+    E = np.zeros((nf, nd))
+    for _ in range(int(rng.integers(3, 9))):
+        E += gen.spectrum(rng, f, th, "smooth")[0] * float(10 ** rng.uniform(-1, 0.5))
+    E = E * (1.0 + 0.6 * rng.random(E.shape)) + 1e-4 * rng.random(E.shape)
+    x = gen.make_da(E.astype("float32").astype("float64"), f, th, [], [])
+    aux = O.make_aux(rng, x, xr)
+    aux["wspd"], aux["wdir"], aux["dpt"] = xr.DataArray(float(rng.uniform(3, 15))), xr.DataArray(float(rng.uniform(0, 360))), xr.DataArray(float(rng.uniform(10, 500)))
+    name = str(rng.choice(["hp01", "hp01", "hp01", "ptm1", "ptm2", "ptm3"]))
+    op = ops[name]
+    try:
+        ra = op.fn(x, aux)
+    except Exception as e:
+        rec.skip(name, "reference execution raised %s" % type(e).__name__)
+        return
+    for k in sorted({1, nd - 1, int(rng.integers(1, nd))}):
+        y = x.roll(dir=k, roll_coords=True)
+        if rng.random() < 0.3:
+            y = y.transpose("dir", "freq")
+        key = "%s|rotation=%s|nd=%d|dims=%s" % (name, "seam_first" if k == 1 else ("seam_last" if k == nd - 1 else "other"), nd, "+".join(y.dims))
+        try:
+            rb = op.fn(y, aux)
+        except Exception as e:
+            rec.bad("partition_rotations", key, {"raised": repr(e)[:300], "dir_stored": y.dir.values}, "raises-under-transform:roll")
+            continue
+        ok, det = compare_parts(ra, rb, 1 if name in ("ptm1", "hp01") else (2 if name == "ptm2" else 0))
+        if ok:
+            rec.ok("partition_rotations", key)
+        else:
+            rec.bad("partition_rotations", key, {"dir_ref": x.dir.values, "dir_T": y.dir.values, "diff": det, "freq": f, "spectrum": x.values,
+                                                 "wind": [float(aux["wspd"]), float(aux["wdir"]), float(aux["dpt"])], "swells": aux["swells"]},
+                    classify(name, "roll", det, x, y))
 
 
 def ties(x, op):
@@ -128,7 +170,7 @@ def one(ctx, rng, xr, ops, names):
             rec.bad(name, key, {"transform": tdesc, "raised": repr(e)[:300], "dir_stored": y.dir.values, "dims": y.dims}, "raises-under-transform:" + T)
             continue
         if op.watershed:
-            ok, det = compare_parts(ra, rb, 1 if name == "ptm1" else (2 if name == "ptm2" else 0))
+            ok, det = compare_parts(ra, rb, 1 if name in ("ptm1", "hp01") else (2 if name == "ptm2" else 0))
         elif name in CANCEL:
             ok, det = compare_cancel(ra, rb, f32, name)
             if ok is None:
